@@ -68,6 +68,9 @@ PolicyScripts ==
     << LoadOp(<<KOctBogus>>), CNewOp, CSetKeyOp("HS256", 0), VerifyOp(Good(KOct, "HS256")) >> }
 
 \* builder causes
+BadPriv == { WithDefect(AsymKey("rsa2048a", 1, NONE, NONE), "qi", "notb64"), WithDefect(AsymKey("p256a", 1, NONE, NONE), "y", "offcurve"),
+             WithDefect(AsymKey("ed25519a", 1, NONE, NONE), "crv", "unknownstr"), WithDefect(AsymKey("p384a", 1, "ES384", NONE), "x", "short"),
+             WithDefect(AsymKey("rsa2048a", 1, "RS256", NONE), "p", "absent") }
 GenSeq(setup) == setup \o << GenerateOp(0), [op |-> "BErrClear", b |-> 0], GenerateOp(1) >>
 BuilderScripts ==
   { GenSeq(<<BNewOp>>),
@@ -87,6 +90,9 @@ BuilderScripts ==
     GenSeq(<<LoadOp(<<KEc>>), BNewOp, BSetKeyOp("ES384", 0)>>),
     GenSeq(<<LoadOp(<<KEc>>), BNewOp, BSetKeyOp("EdDSA", 0)>>),
     << LoadOp(<<KRsa>>), BNewOp, BSetKeyOp("RS256", 0), BSetCbOp(<<CbRet(1)>>), GenerateOp(0), BSetCbOp(<<CbRet(0)>>), GenerateOp(1) >> }
+  \* keys that failed to import but still say "private": given to the builder by setkey and by the callback
+  \cup { GenSeq(<<LoadOp(<<bk>>), BNewOp, BSetKeyOp(a, 0)>>) : bk \in BadPriv, a \in {"none", "RS256", "ES256", "EdDSA"} }
+  \cup { GenSeq(<<LoadOp(<<bk>>), BNewOp, BSetCbOp(<<CbKey(0), CbAlg(a)>>)>>) : bk \in BadPriv, a \in {"RS256", "ES256", "EdDSA"} }
 
 \* JWK defects: every errored item carries a message
 Def(k, m, c) == WithDefect(k, m, c)
